@@ -49,6 +49,10 @@ CHECKS = {
   text="Gather-then-delete ordering, reversed traversal, confinement of every mutation of _delete_nodes to the current item's (parent, parentref) under a presence/bounds guard (merge-key branch included), root refusal without prior mutation, guarded partial operations. Duplicate matches of one node are declined (run-time).",
   note="Trusted base: coordinates satisfy C02; ruamel merge entries are (index, node).",
   technique="mutation-site confinement + guard-dominance + loop-order rules over the AST"),
+ "C01": dict(
+  text="Partial evaluation of the segment dispatcher per PathSegmentTypes member (routing, exhaustiveness, unfiltered relay), sibling agreement of the required/optional drivers and the public entry points (same generator, same argument roles, depth+1, relay), separator non-interference, XOR truth table of every match test and the haystack/yield table of the search handler per container branch, two-sided index bounds. Decides the structural clauses for all inputs; the extensional equality of the selected node set with the reference semantics is declined.",
+  note="Trusted base: generator relay semantics; the parser stores the term objects for SEARCH/KEYWORD_SEARCH/COLLECTOR segments (C08).",
+  technique="partial evaluation per enum member + sibling-agreement and table rules over the AST; truth-table evaluation"),
 }
 
 NOT_BUILT = "check not built yet (framework under construction; will be claimed at clause level per DESIGN.md)"
